@@ -5,6 +5,8 @@ CONSTANTS
   MaxDel = 2
   FixLockOrder = TRUE
   GuardUnstore = TRUE
+  MaxOpenFail = 0
+  StoreBeforeOpen = FALSE
   RecordHist = TRUE
 INVARIANTS PrintBehaviour
 CHECK_DEADLOCK FALSE
